@@ -43,6 +43,19 @@ const nginxPrefix = "nginx.ingress.kubernetes.io/"
 
 // ReadTraffic evaluates the oracle on the current store.
 func ReadTraffic(w *World, sc *Scenario) TrafficState {
+	if sc.Traffic == "ingress+gateway" {
+		// a composite provider: the request reaches the canary if either gateway sends it there
+		a, b := *sc, *sc
+		a.Traffic, b.Traffic = "ingress", "gateway"
+		ta, tb := ReadTraffic(w, &a), ReadTraffic(w, &b)
+		if tb.CanaryShare > ta.CanaryShare {
+			ta.CanaryShare = tb.CanaryShare
+		}
+		ta.CanaryMatches = append(ta.CanaryMatches, tb.CanaryMatches...)
+		sort.Strings(ta.CanaryMatches)
+		ta.RoutesToCanary = ta.RoutesToCanary || tb.RoutesToCanary
+		return ta
+	}
 	ts := TrafficState{Provider: sc.Traffic}
 	if sc.Traffic == "" {
 		return ts
